@@ -14,7 +14,7 @@ CONSTANTS GDirs,     \* gravity directions (integer vectors with integer norm)
           Dets,      \* scattered beam vectors
           Qs,        \* drop parameters <<qn, qd>>
           Rots,      \* rotations used by Reorient (generators of, or all of, Rot24)
-          Bug        \* "none" | "plus_g" | "opt_no_x" | "refl_accepts"
+          Bug        \* "none" | "plus_g" | "opt_no_x" | "refl_accepts" | "all_pixels"
 
 VARIABLES setup, out
 vars == <<setup, out>>
@@ -105,6 +105,25 @@ Larger ==
 ReflTable ==
     /\ (out.refl[1] = "refused" <=> ~Perpendicular(setup))
     /\ (out.refl[1] = "angle" /\ XNum(setup, setup.b2) = 0 => out.refl[2] = out.tt)
+
+(* One call with an incident beam PER PIXEL: the documented dispatch takes the general path for   *)
+(* all pixels as soon as ANY pixel is tilted (Bug "all_pixels": only if all of them are), and     *)
+(* the reflectometry variant refuses the whole call.  Whatever company a pixel is in, its result  *)
+(* is the construction for its own beam.  Companions: the current setup with a beam that is       *)
+(* perpendicular to gravity instead.                                                              *)
+BatchGeneral(ss) == IF Bug = "all_pixels" THEN \A s \in ss : Dot(s.g, s.b1) # 0
+                    ELSE \E s \in ss : Dot(s.g, s.b1) # 0
+PixelResult(s, general) == IF general THEN GeneralClass(s, IGeneralDir(s)) ELSE IOptimised(s)
+(* (one companion per setup keeps the model small; every setup is reachable, so every perpendicular  *)
+(* beam is some setup's companion)                                                                 *)
+Companions(s) == LET P == { b \in Beams : Dot(s.g, b) = 0 /\ ValidSetup([s EXCEPT !.b1 = b]) }
+                 IN  IF P = {} THEN {} ELSE { [s EXCEPT !.b1 = CHOOSE b \in P : TRUE] }
+MixedBatch ==
+    \A c \in Companions(setup) :
+        LET general == BatchGeneral({setup, c}) IN
+        /\ PixelResult(setup, general) = TwoThetaClass(setup)
+        /\ PixelResult(c, general) = TwoThetaClass(c)
+        /\ (general <=> ~Perpendicular(setup))          \* the companion itself never forces the general path
 
 -----------------------------------------------------------------------------
 (* raising q for a detector above a horizontal beam moves 2theta monotonically *)
